@@ -253,12 +253,18 @@ Section Steps.
 
   (* the image of every item of the source bundle is an item of the image bundle *)
   Definition ImgOK (rl : rel) (p p' : id) (s : state) (m : memo) : Prop :=
-    forall i, In i (kids s0 rl p) -> exists i', In (i, i') m /\ In i' (kids s rl p').
+    (forall i, In i (kids s0 rl p) -> exists i', In (i, i') m /\ In i' (kids s rl p')) /\
+    (forall i', In i' (kids s rl p') -> exists i, In (i, i') m /\ In i (kids s0 rl p)).
   Lemma imgok_stable rl : Stable (ImgOK rl).
   Proof.
-    intros x x' s m s2 m2 H Hx Hm [_ Hk] i Hi. destruct (H i Hi) as [i' [A B]]. exists i'. split; [apply Hm; exact A|].
-    rewrite Hk by exact Hx. exact B.
+    intros x x' s m s2 m2 [H1 H2] Hx Hm [_ Hk]. split.
+    - intros i Hi. destruct (H1 i Hi) as [i' [A B]]. exists i'. split; [apply Hm; exact A|]. rewrite Hk by exact Hx. exact B.
+    - intros i' Hi'. rewrite Hk in Hi' by exact Hx. destruct (H2 i' Hi') as [i [A B]]. exists i. split; [apply Hm; exact A|exact B].
   Qed.
+
+  Lemma forall2_in_l {A B} (R : A -> B -> Prop) l l' : Forall2 R l l' -> forall y, In y l' -> exists x, In x l /\ R x y.
+  Proof. induction 1 as [|a b l l' Hab _ IH]; intros y Hy; [destruct Hy|]. destruct Hy as [<-|Hy]; [exists a; split; [left; reflexivity|exact Hab]|].
+    destruct (IH y Hy) as [x [Hx Hr]]. exists x. split; [right; exact Hx|exact Hr]. Qed.
 
   Lemma forall2_in_r {A B} (R : A -> B -> Prop) l l' : Forall2 R l l' -> forall x, In x l -> exists y, In y l' /\ R x y.
   Proof. induction 1 as [|a b l l' Hab _ IH]; intros x Hx; [destruct Hx|]. destruct Hx as [<-|Hx]; [exists b; split; [left; reflexivity|exact Hab]|].
@@ -317,8 +323,11 @@ Section Steps.
       + apply S2. left. reflexivity.
       + split; [match goal with |- next s <= next ?sf => assert (HnF : next sf = next s2) by exact Hn4; rewrite HnF end; lia|].
         intros r y Hy. rewrite HkF. replace (Nat.eqb y (next s)) with false by (symmetry; apply Nat.eqb_neq; lia). rewrite andb_false_r. reflexivity.
-      + intros i Hi. destruct (forall2_in_r _ _ _ F2 i Hi) as [i' [Hi' [Hm _]]]. exists i'. split; [exact Hm|].
-        rewrite HkF, rel_eqb_refl, Nat.eqb_refl. exact Hi'.
+      + split.
+        * intros i Hi. destruct (forall2_in_r _ _ _ F2 i Hi) as [i' [Hi' [Hm _]]]. exists i'. split; [exact Hm|].
+          rewrite HkF, rel_eqb_refl, Nat.eqb_refl. exact Hi'.
+        * intros i' Hi'. rewrite HkF, rel_eqb_refl, Nat.eqb_refl in Hi'. destruct (forall2_in_l _ _ _ F2 i' Hi') as [i [Hi [Hm _]]].
+          exists i. split; [exact Hm|exact Hi].
   Qed.
 End Steps.
 
